@@ -134,6 +134,20 @@ Definition shift_ok (I served : Z) (pre post : list (Z * bool * Z * Z * option Z
   end.
 
 (* ------------------------------------------------------------------------------------------ *)
+(** * Rebuilt rows *)
+
+(** a rebuilt row (scheduled, expiry, anchor): the expiry is the canonical expiry of the row's own
+    scheduled height; the anchor is admissible AT THAT HEIGHT (grid boundary, above activation, not
+    before the funding note, strictly below the most recent boundary, within the age cap); the
+    schedule lies one delay (0..cap, saturating) past the chain base *)
+Definition rebuild_ok (I cap nu63 funding tip : Z) (pend : list Z) (row : Z * Z * option Z) : bool :=
+  let '(sched, ex, an) := row in
+  let base := fold_left Z.max pend (Z.min u32_max (tip + 1)) in
+  (ex =? expiry_spec sched) &&
+  (base <=? sched) && (sched <=? Z.min u32_max (base + cap)) &&
+  match an with Some b => anchor_ok I nu63 funding sched b | None => false end.
+
+(* ------------------------------------------------------------------------------------------ *)
 (** * Wake-ups *)
 
 (** proving window of a transfer (a, b) at the observed tip: [ready, deadline]; overdue when
